@@ -62,7 +62,7 @@ func runChild(name string, args string, timeout time.Duration, memLimitMB int) c
 	cmd.Stderr = &se
 	t0 := time.Now()
 	err := cmd.Run()
-	out := childOutcome{Wall: time.Since(t0), Stderr: tail(se.String(), 1500)}
+	out := childOutcome{Wall: time.Since(t0), Stderr: reasonLine(se.String()) + tail(se.String(), 1500)}
 	if ctx.Err() == context.DeadlineExceeded {
 		out.Result = "timeout"
 		return out
@@ -89,4 +89,23 @@ func tail(s string, n int) string {
 		return s[len(s)-n:]
 	}
 	return s
+}
+
+func reasonLine(stderr string) string {
+	for _, l := range strings.Split(stderr, "\n") {
+		if strings.HasPrefix(l, "panic:") || strings.HasPrefix(l, "fatal error:") {
+			return l + "\n"
+		}
+	}
+	return ""
+}
+
+// crashReason extracts the runtime's own reason (panic: …, fatal error: …) from a child's stderr
+func crashReason(stderr string) string {
+	for _, l := range strings.Split(stderr, "\n") {
+		if strings.HasPrefix(l, "panic:") || strings.HasPrefix(l, "fatal error:") || strings.HasPrefix(l, "child panic:") {
+			return "(" + strings.TrimSpace(l) + ")"
+		}
+	}
+	return ""
 }
